@@ -15,6 +15,10 @@ THEOREMS = [
     "Mtv.Envelope.openClient_refuses_short_or_unaligned",
     "Mtv.Envelope.unenc_refuses",
     "Mtv.Envelope.unenc_refuses_parity_and_length",
+    "Mtv.Envelope.keyed_session_refuses_plain",
+    "Mtv.Envelope.keyed_session_message_is_under_key",
+    "Mtv.Envelope.clientRead_before_key",
+    "Mtv.Envelope.clientRead_no_panic",
 ]
 RULE = ("fault enumeration on packets sealed by the harness's own MTProto 1.0 server (body lengths 0, 4, 20, 100; thorough: "
         "0, 1, 4, 15, 16, 20, 100, 1000): every single-bit flip of the 24-byte header and sampled (thorough: all) ciphertext "
@@ -28,6 +32,14 @@ RULE = ("fault enumeration on packets sealed by the harness's own MTProto 1.0 se
         "(GetAuthKey of the informator) changes between them - A then B (retired key's packets refused, new key's "
         "accepted), A,B,A, key emptied / unusable in between, first packet foreign / unencrypted / refused / keyless, "
         "random walks over three keys; each step judged as a routed packet under the key in force at that read; "
+        "c04.client: ONE real client (mtproto.NewMTProto on a stored session = encrypted mode, CreateConnection, its own receive "
+        "goroutine, MTProto.readMsg) reading several raw frames while SetAuthKey changes the key between them - valid sealings of "
+        "update objects under the key in force (handed to the application's handler: the packet yielded a message), sealings under "
+        "a retired / other / emptied key, well-formed PLAIN-TEXT frames (zero key id, server-parity msg_id, true length) carrying "
+        "an update, damaged ones (client parity, wrong length, truncated, a sealing whose key id was zeroed), 4-byte codes, random "
+        "walks; judged per step: a frame with zero key id yields no message while the client is in encrypted mode, a yielded "
+        "message is what the specification's receiver recovers under the key in force, valid packets after refused ones are "
+        "still delivered; "
         "unencrypted packets: every truncation, declared length len-33..len+33 and extremes, wrong parity. Judge: never a panic; "
         "an accepted message must be what the independent specification receiver recovers from those bytes and have server "
         "parity; alterations must be errors; valid (re-)sealings must open to what was sealed. distinct = distinct operation "
@@ -42,6 +54,10 @@ def run(ctx):
         "Go's int is modelled as unbounded (64-bit platform; packet lengths below 2^63)",
         "the theorems describe DeserializeEncrypted after the D3 repair (fix: commit 095a0e6 in /repo); the model of the code "
         "as found (openClientOrig) is kept for the two D3 counterexample theorems",
+        "clientRead models MTProto.readMsg after the repair pending_fixes/C04-plain-frame-in-encrypted-session.patch (an "
+        "unencrypted message is refused when m.encrypted); until it is committed the check reports on /repo that plain-text frames "
+        "yield messages in a keyed session. 'Yields a message' is observed at the application's handler for update bodies; the "
+        "other message kinds (salts, results, notifications, containers) are observed by C16's plain-frame scenarios",
     ]
     return vlib.generic_check(ctx, SUB, MODULES, THEOREMS, RULE,
                               extra_trusted=["the Go specification server of harness/cmd/vh/x_envelope.go (crypto/sha1, crypto/aes, own IGE loop)"])
